@@ -73,7 +73,7 @@ pub fn eval_event_case(case: &J) -> Outcome {
             if want.len() >= 2 { out.tag("multi"); } else { out.tag("trivial"); }
             out.imp = json!({"collected": ev_json(&collected), "noop": noop, "pair": pair.as_ref().map(ev_json)});
         }
-        Err((loc, msg)) => { out.imp = json!("panic"); out.fail(&format!("C18/dpevent/panic/{}", site_file(&loc)), msg); }
+        Err((loc, msg)) => { out.imp = json!("panic"); out.fail(&format!("C18/dpevent/panic/{}", site(&loc, &msg)), msg); }
     }
     out
 }
@@ -129,13 +129,13 @@ pub fn eval_query(case: &J) -> Outcome {
     let relation = match guarded(|| { let q = parse(sql).map_err(|e| e.to_string())?; Relation::try_from(QueryWithRelations::new(&q, &rels)).map_err(|e| e.to_string()) }) {
         Ok(Ok(r)) => r,
         Ok(Err(_)) => { out.tag("trivial"); out.tag("parse-err"); return out; }
-        Err((loc, msg)) => { out.tag("trivial"); out.fail(&format!("C18/dpquery/parse-panic/{}", site_file(&loc)), format!("{sql}: {msg}")); return out; }
+        Err((loc, msg)) => { out.tag("trivial"); out.fail(&format!("C18/dpquery/parse-panic/{}", site(&loc, &msg)), format!("{sql}: {msg}")); return out; }
     };
     let res = guarded(|| relation.rewrite_with_differential_privacy(&rels, None, privacy_unit(), p.clone()));
     let rw = match res {
         Ok(Ok(r)) => r,
         Ok(Err(e)) => { out.tag("trivial"); out.tag("dp-err"); out.imp = json!({"err": e.to_string().len() > 0}); return out; }
-        Err((loc, msg)) => { out.tag("trivial"); out.fail(&format!("C18/dpquery/rewrite-panic/{}", site_file(&loc)), format!("{sql} with {:?}: {msg}", p)); return out; }
+        Err((loc, msg)) => { out.tag("trivial"); out.fail(&format!("C18/dpquery/rewrite-panic/{}", site(&loc, &msg)), format!("{sql} with {:?}: {msg}", p)); return out; }
     };
     let facts = ir::facts(rw.relation());
     let pairs = ir::sigma_clip_pairs(rw.relation());
